@@ -132,12 +132,11 @@ theorem getattr_eq (c : Cls) (d : Dict) (sp : Name) : iGetattr getShape c d sp =
       cases h3 : declMatch c sp with
       | none => simp [doGetFall, objectGet, h1, h2]
       | some a =>
-        simp only [pick]
-        by_cases hs : (dget d a).isSome = true
-        · obtain ⟨w, hw⟩ := Option.isSome_iff_exists.mp hs
-          simp [doGet, pick, hw]
-        · have hn : dget d a = none := by simpa using hs
-          by_cases h5 : a ∈ c.refs <;> simp [doGet, pick, objectGet, hn, h5]
+        simp only [pick, doGet, objectGet]
+        by_cases h5 : a ∈ c.refs
+        · simp [h5]
+        · simp only [h5, ↓reduceIte]
+          cases dget d a <;> rfl
 
 theorem setattr_eq (c : Cls) (d : Dict) (sp : Name) (v : Val) : setattr c d sp v = iSetattr setShape c d sp v := by
   unfold setattr iSetattr
@@ -145,12 +144,8 @@ theorem setattr_eq (c : Cls) (d : Dict) (sp : Name) (v : Val) : setattr c d sp v
   cases h3 : declMatch c sp with
   | none => rfl
   | some a =>
-    simp only [pick]
-    by_cases hs : (dget d a).isSome = true
-    · obtain ⟨w, hw⟩ := Option.isSome_iff_exists.mp hs
-      simp [doSet, pick, hw]
-    · have hn : dget d a = none := by simpa using hs
-      by_cases h5 : a ∈ c.refs <;> simp [doSet, pick, objectSet, hn, h5]
+    simp only [pick, doSet, objectSet]
+    by_cases hs : (dget d a).isSome = true <;> by_cases h5 : a ∈ c.refs <;> simp [hs, h5]
 
 theorem delattr_eq (d : Dict) (sp : Name) : delattr d sp = iDelattr delMatch d sp := rfl
 
